@@ -45,7 +45,7 @@ def run(ctx):
                             "more than 62 chains (and more than 99999 atoms in thorough). Non-trivial = the table does not already fit; distinct by table text.")
     corr_expr, corr_exp, corr_case = [], [], []
     known = 0
-    kinds = ["fits", "longchain", "bignumber", "bigserial", "icode+longchain", "63chains", "pdb"]
+    kinds = ["fits", "longchain", "bignumber", "bigserial", "icode+longchain", "63chains", "pdb", "one-longchain", "one-bignumber", "one-bigserial"]
     n = 40 if ctx.quick else 300
     for t in range(n):
         kind = kinds[t % len(kinds)]
@@ -53,7 +53,7 @@ def run(ctx):
         if kind == "bignumber" and t % 2:
             for r in table:
                 r["resSeq"] = 9999 + (r["resSeq"] % 3) if r["resSeq"] > 0 else r["resSeq"]     # the boundary: 9999 fits, 10000 does not
-        if "longchain" in kind:
+        if kind in ("longchain", "icode+longchain"):
             for r in table:
                 r["chainID"] = r["chainID"] + rng.choice(["A", "x", "-2"])
         if kind == "bignumber":
@@ -62,6 +62,21 @@ def run(ctx):
         if kind == "bigserial":
             for r in table:
                 r["serial"] += 100000
+        # exactly one offender among otherwise fitting rows: a limit tested with min/any-all mixed up still passes the all-offenders tables above
+        if kind == "one-longchain":
+            last = (table[-1]["chainID"], table[-1]["resSeq"], table[-1]["iCode"])
+            if any((r["chainID"], r["resSeq"], r["iCode"]) != last for r in table):
+                for r in table:
+                    if (r["chainID"], r["resSeq"], r["iCode"]) == last:
+                        r["chainID"] = last[0] + "B"       # the last residue moves to a chain of its own with a two-character id
+        if kind == "one-bignumber":
+            r = rng.choice(table)
+            key = (r["chainID"], r["resSeq"], r["iCode"])
+            for q in table:
+                if (q["chainID"], q["resSeq"], q["iCode"]) == key:
+                    q["resSeq"] = 10000
+        if kind == "one-bigserial":
+            table[-1]["serial"] = 100000
         if kind == "63chains":
             base = table[:2]
             table = []
